@@ -447,7 +447,7 @@ class render_inline_reference:
     allowed = ('IndexError',)
 
     def requires_named(model):
-        return (len(model.col1) > 0 and len(model.col2) > 0 and all(c.name is not None for c in model.col2)
+        return (model.type is not None and len(model.col1) > 0 and len(model.col2) > 0 and all(c.name is not None for c in model.col2)
                 and all(c.table is not None and c.table.name is not None and c.table.schema is not None for c in model.col2))
 
     def raises_DBMLError(model):
